@@ -118,13 +118,13 @@ class SCRG_remove_atom_1(LoopInv):
 
 
 def _frame_other_refs(ctx, tname, ref, val=True):
-    """the havocked heap arrays of dict type tname agree with the loop-entry arrays at every reference but `ref`"""
+    """the heap arrays of dict type tname agree with the loop-entry arrays at every reference but `ref`
+    (quantifier-free: now == entry[ref := now[ref]], so that the feasibility pruning can use it)"""
     h = H.heap_of(ctx.interp)
-    r_ = z3.Int("lr")
-    body = z3.Select(h.dom[tname], r_) == z3.Select(ctx.h_entry.dom[tname], r_)
+    body = h.dom[tname] == z3.Store(ctx.h_entry.dom[tname], ref, z3.Select(h.dom[tname], ref))
     if val:
-        body = z3.And(body, z3.Select(h.val[tname], r_) == z3.Select(ctx.h_entry.val[tname], r_))
-    return FA([r_], z3.Implies(r_ != ref, body))
+        body = z3.And(body, h.val[tname] == z3.Store(ctx.h_entry.val[tname], ref, z3.Select(h.val[tname], ref)))
+    return body
 
 
 class SMG_enantiomer_0(LoopInv):
@@ -214,6 +214,11 @@ class _SCRG_enantiomer_changes(LoopInv):
             ("old-change-dicts-untouched", FA([r_], z3.Implies(r_ < ctx.h_entry.A0, z3.And(z3.Select(h.dom["chg"], r_) == z3.Select(ctx.h_entry.dom["chg"], r_),
                                                                                            z3.Select(h.val["chg"], r_) == z3.Select(ctx.h_entry.val["chg"], r_))))),
         ]
+
+
+    def hints(self, ctx, x):
+        # the source's change dictionary under the loop element (an old reference)
+        return [ctx.v_entry.ac_ref(x) if self.atomic else ctx.v_entry.bc_ref(x)]
 
 
 class SCRG_enantiomer_0(_SCRG_enantiomer_changes):
